@@ -13,6 +13,7 @@
 -/
 import MofunModel.Proofs.SelfReplaceLemmas
 import MofunModel.Proofs.SelfReplaceRoundtrip
+import MofunModel.Proofs.SelfReplaceTerms
 
 namespace Mofun.C08
 
@@ -113,6 +114,47 @@ theorem single_site_exact (L : Mat3) (hd : L.det ≠ 0) (p0 : Vec3) (r : Atoms) 
   · intro hin
     simp only [hv]
     exact Mofun.C05.wrap_of_inCell L _ hd hin
+
+/-! ### self-replacement with a pattern that carries terms -/
+
+/-- **self_replace_terms** — the precise statement behind the known finding
+    `C08-self-replacement-adds-the-patterns-own-terms`.  Guards as in `self_replace_noop`, but `P` MAY carry terms (on its own
+    atoms: `termsValid`), `P` non-empty.  The replacement succeeds; the atoms are exactly those of `S` (order, position,
+    charge, group, resolved element); and for each term kind the tuples of the result (a tuple listed backwards is the same
+    tuple) are EXACTLY the tuples of `S` together with the images of `P`'s own terms under every match:
+        has r u  ⟺  has S u  ∨  ∃ match m, ∃ term t of P, (t.atoms mapped through m.idx) = u (forwards or backwards).
+    So nothing is lost, and what is gained is precisely the pattern's topology on the matched atoms that `S` lacked. -/
+theorem self_replace_terms (s p : Atoms) (ms : List PlacedMatch) (ignore : Bool)
+    (hd : distinctAtoms p = true) (hpt : termsValid p = true) (htv : typesValid s = true)
+    (hms : ∀ m ∈ ms, goodSelfMatch s p m = true) (hne : p.atoms.isEmpty = false) :
+    ∃ r, replaceCore s p p ms false ignore = .ok r ∧
+      r.atoms.length = s.atoms.length ∧
+      (∀ i, i < s.atoms.length → ∃ a b, s.atoms[i]? = some a ∧ r.atoms[i]? = some b ∧
+          b.pos = a.pos ∧ b.charge = a.charge ∧ b.group = a.group ∧ r.elemOf i = s.elemOf i) ∧
+      TuplesAre s.bonds r.bonds p.bonds ms ∧ TuplesAre s.angles r.angles p.angles ms ∧
+      TuplesAre s.dihedrals r.dihedrals p.dihedrals ms ∧ TuplesAre s.impropers r.impropers p.impropers ms ∧
+      r.cell = s.cell := by
+  obtain ⟨st, hfold, hinv⟩ := fold_invT s p ignore ms _ [] hd hpt hms (inv_initT s p htv)
+  rw [List.nil_append] at hinv
+  refine ⟨st.s, ?_, hinv.len, ?_, hinv.bonds, hinv.angles, hinv.dihedrals, hinv.impropers, hinv.cell⟩
+  · rw [replaceCore_self s p ms ignore hne, hfold]
+    simp only [hinv.del]
+    exact delete_nil st.s
+  · intro i hi
+    have hi' : i < st.s.atoms.length := by rw [hinv.len]; exact hi
+    have hb : st.s.atoms[i]? = some st.s.atoms[i] := List.getElem?_eq_getElem hi'
+    obtain ⟨r0, h0, h1, h2, h3, h4⟩ := hinv.rows i _ hb
+    refine ⟨r0, st.s.atoms[i], h0, hb, h1, h2, h3, ?_⟩
+    rw [← h4]
+    simp [Atoms.elemOf, hb, hinv.telems]
+
+/-- consequence: no tuple of the structure is lost -/
+theorem self_replace_terms_nothing_lost (s p : Atoms) (ms : List PlacedMatch) (ignore : Bool)
+    (hd : distinctAtoms p = true) (hpt : termsValid p = true) (htv : typesValid s = true)
+    (hms : ∀ m ∈ ms, goodSelfMatch s p m = true) (hne : p.atoms.isEmpty = false) :
+    ∃ r, replaceCore s p p ms false ignore = .ok r ∧ ∀ u, hasTuple s.bonds.terms u → hasTuple r.bonds.terms u := by
+  obtain ⟨r, hr, _, _, hb, _⟩ := self_replace_terms s p ms ignore hd hpt htv hms hne
+  exact ⟨r, hr, fun u hu => (hb u).mpr (Or.inl hu)⟩
 
 /-! ### which structure terms a pattern term supersedes -/
 
@@ -401,5 +443,14 @@ example : exMs2.map (·.idx) = (List.range exMs1.length).map (fun j => [exSiteS.
 example : exMs2.map pos0 = exMs1.map (fun m => exL.wrap (pos0 m)) := by decide +kernel
 /-- completeness hypothesis of `no_match_after_replace_all_partial` on the example: both N atoms are matched -/
 example : ∀ i, i < exSiteS.atoms.length → exSiteS.elemOf i = exA.elemOf 0 → i ∈ exMs1.map idx0 := by decide +kernel
+
+/-- the identification case of the finding: two C–O pairs without bonds, the pattern C–O carries its bond -/
+def exPbond : Atoms := { exP with bonds := ⟨[⟨[0, 1], 0, []⟩], [], []⟩ }
+def exSnoTerms : Atoms := { exS with bonds := TermTable.empty, angles := TermTable.empty }
+example : termsValid exPbond = true ∧ distinctAtoms exPbond = true := by decide +kernel
+example : ∀ m ∈ exMs, goodSelfMatch exSnoTerms exPbond m = true := by decide +kernel
+example : (replaceCore exSnoTerms exPbond exPbond exMs false false).toOption.map (fun r => r.bonds.terms.map (·.atoms))
+    = some [[0, 1], [2, 3]] := by decide +kernel
+
 
 end Mofun.C08
